@@ -466,7 +466,7 @@ func (t *Table) linked(sb *Symbol) []*Symbol {
 		}
 	}
 	for sb, count := range degree {
-		if count != 0 {
+		if count != 0 && !slices.Contains(linked, sb) {
 			linked = append(linked, sb)
 		}
 	}
